@@ -1153,13 +1153,11 @@ class PendingClassDef(_PendingCompoundStmt[ClassDef]):
 
         class_bases = [expr_transf(self.nsp, _expr) for _expr in self.node.bases]
 
-        metaclass_expr = None
+        has_metaclass = False
         class_keywords = []
         for _keyword in self.node.keywords:
             if _keyword.arg == "metaclass":
-                # filter the metaclass keyword
-                metaclass_expr = expr_transf(self.nsp, _keyword.value)
-                continue
+                has_metaclass = True
             class_keywords.append(
                 keyword(
                     arg=_keyword.arg,
@@ -1167,23 +1165,58 @@ class PendingClassDef(_PendingCompoundStmt[ClassDef]):
                 )
             )
 
-        if metaclass_expr is None:
-            metaclass_expr = Name(id="type", ctx=Load())
-
-        return_list.append(
-            self.nsp.get_assign(
-                self.node.name,
-                Call(
-                    func=metaclass_expr,
-                    args=[
-                        Constant(value=self.node.name),
-                        Tuple(elts=class_bases, ctx=Load()),
-                        Dict(keys=[], values=[]),
-                    ],
-                    keywords=class_keywords,
-                ),
+        create_class: expr
+        if not has_metaclass:
+            create_class = Call(
+                func=Name(id="type", ctx=Load()),
+                args=[
+                    Constant(value=self.node.name),
+                    Tuple(elts=class_bases, ctx=Load()),
+                    Dict(keys=[], values=[]),
+                ],
+                keywords=class_keywords,
             )
-        )
+        else:
+            # Python evaluates the bases first and then the keywords in source
+            # order, the metaclass among them. Pass them all to a lambda in that
+            # order and pick the metaclass out of the keywords inside.
+            bases_name = ol_name(OL_CLASS_BASES)
+            kwds_name = ol_name(OL_CLASS_KEYWORDS)
+            create_class = Call(
+                func=Lambda(
+                    args=arguments(
+                        posonlyargs=[],
+                        args=[arg(arg=bases_name)],
+                        kwonlyargs=[],
+                        kw_defaults=[],
+                        kwarg=arg(arg=kwds_name),
+                        defaults=[],
+                    ),
+                    body=Call(
+                        func=Call(
+                            func=Attribute(
+                                value=Name(id=kwds_name, ctx=Load()),
+                                attr="pop",
+                                ctx=Load(),
+                            ),
+                            args=[Constant(value="metaclass")],
+                            keywords=[],
+                        ),
+                        args=[
+                            Constant(value=self.node.name),
+                            Name(id=bases_name, ctx=Load()),
+                            Dict(keys=[], values=[]),
+                        ],
+                        keywords=[
+                            keyword(arg=None, value=Name(id=kwds_name, ctx=Load()))
+                        ],
+                    ),
+                ),
+                args=[Tuple(elts=class_bases, ctx=Load())],
+                keywords=class_keywords,
+            )
+
+        return_list.append(self.nsp.get_assign(self.node.name, create_class))
 
         class_body: list[expr] = []
         class_body.append(
